@@ -4116,8 +4116,10 @@ class Wallet(object):
                     transaction.fee = 0
 
         if fee is False:
+            # Everything which is left of the given inputs is the fee: the fee rate follows from it and is checked below
             transaction.change = 0
             transaction.fee = int(amount_total_input - amount_total_output)
+            transaction.fee_per_kb = None
         else:
             transaction.change = int(amount_total_input - (amount_total_output + transaction.fee))
 
